@@ -31,6 +31,7 @@ from __future__ import print_function
 
 # Standard library
 import logging
+import os
 import socket
 import sys
 import threading
@@ -799,6 +800,30 @@ class CGIJSONRPCRequestHandler(
         """
         SimpleJSONRPCDispatcher.__init__(self, encoding, config)
         CGIXMLRPCRequestHandler.__init__(self, encoding=encoding)
+
+    def handle_request(self, request_text=None):
+        """
+        Handles a single JSON-RPC request passed through a CGI post method
+
+        :param request_text: The request, if it has already been read
+        """
+        if request_text is None and os.environ.get("REQUEST_METHOD") != "GET":
+            # CONTENT_LENGTH is a number of bytes: read them as such and
+            # decode them as a whole (a text-mode read counts characters and
+            # goes beyond the request when it contains multi-byte ones)
+            try:
+                length = int(os.environ.get("CONTENT_LENGTH", None))
+            except (ValueError, TypeError):
+                length = -1
+
+            try:
+                reader = sys.stdin.buffer
+            except AttributeError:
+                reader = sys.stdin
+
+            request_text = utils.from_bytes(reader.read(length))
+
+        CGIXMLRPCRequestHandler.handle_request(self, request_text)
 
     def handle_jsonrpc(self, request_text):
         """
